@@ -237,7 +237,8 @@ struct HistGen {
             int maxb = tk ? 2 : 3;
             int len = mant ? *rc::gen::element(0, 8, 15, 17, 32, huge) : *rc::gen::element(0, 1, bs - 1, maxb * bs + 1, maxb * bs + bs, huge);
             size_t have = (size_t)std::min<long long>((unsigned)len, (long long)3 * bs + 16);
-            k.set("key", *gbytes(have)).set("len", len);
+            // (an invalid call may well carry the very key that is active: a cache keyed on the bytes must not short-cut validation)
+            k.set("key", reuse_or(keypool, have, 40)).set("len", len);
             if (mant) { k.set("rounds", *irange(5, 8)); if (s.kind == PM) k.set("mode", *irange(0, 1)); }
             p.push_back(k);
         } else if (w == 1) {    // NULL key
@@ -247,7 +248,7 @@ struct HistGen {
             p.push_back(k);
         } else if (w == 2 && mant) {   // bad rounds
             Op k = base(i, "set_key", true);
-            k.set("key", *gbytes(16)).set("len", 16).set("rounds", *rc::gen::element(0, 1, 4, 9, 16, huge));
+            k.set("key", reuse_or(keypool, 16, 40)).set("len", 16).set("rounds", *rc::gen::element(0, 1, 4, 9, 16, huge));
             if (s.kind == PM) k.set("mode", 1);
             p.push_back(k);
         } else if (w == 2 || w == 3) {
@@ -285,7 +286,7 @@ struct HistGen {
         } else if (w == 4) {    // bad tweak length
             Op t = base(i, "set_tweak", true);
             int len = mant ? *rc::gen::element(0, 1, 4, 7, 9, 16, huge) : *rc::gen::element(0, bs + 1, 2 * bs, huge);
-            t.set("tweak", *gbytes((size_t)std::min<long long>((unsigned)len, (long long)2 * bs))).set("len", len);
+            t.set("tweak", reuse_or(tweakpool, (size_t)std::min<long long>((unsigned)len, (long long)2 * bs), 40)).set("len", len);
             p.push_back(t);
         } else if (w == 5) {    // bad counter length
             Op c = base(i, "set_counter", true);
